@@ -65,6 +65,8 @@ def main():
         mp = os.path.join(d, "meta.json")
         if os.path.exists(mp):
             old = json.load(open(mp))
+        if not meta.get("needs"):
+            meta.pop("needs", None)  # keep what is recorded
         old.update(meta)
         json.dump(old, open(mp, "w"), indent=1)
         print(json.dumps({k: v for k, v in old.items() if k not in ("demo_output_with_change", "ran")}, indent=1))
